@@ -252,6 +252,8 @@ def run_check(modname: str, tier: str, replay: Optional[str] = None) -> int:
         out = timed_case(engine, case)
         bad = [v for v in out.get("violations", ()) if pid in v["props"] and v["clause"] not in known]
         for v in out.get("violations", ()):
+            if pid in v["props"] and v["clause"] in known:
+                print(f"KNOWN-FINDING: property={pid} {v['clause']}: {known[v['clause']]}")
             print(("VIOLATION-DETAIL " if pid in v["props"] else "other-property ") + json.dumps(v))
         if out.get("timeout"):
             print(f"VIOLATION property={pid} replay={replay}")
